@@ -1,17 +1,17 @@
-SPECIFICATION SpecNums
+SPECIFICATION SpecCalls
 CONSTANTS
-  Bug = ""
+  Bug = "FormatDropsCommas"
   N0 = 0
   N1 = 0
   N2 = 0
   L1 = 0
   L2 = 0
-  MaxArgs = 0
-  Fns = {}
+  MaxArgs = 2
+  Fns = {"glue"}
   Rich = FALSE
   TextLen = 0
   Chars = {}
-  IntParts = {0}
+  IntParts = {}
   Sample = 1
-INVARIANTS InvScanPrint InvUnitsAsInTeX
+INVARIANTS InvFormat
 CHECK_DEADLOCK FALSE
